@@ -29,8 +29,8 @@ CHECKS = {
     note="Stand-ins for click/jinja2/toposort, no ruff. DTD and WSDL sources are exercised by C16/C17 only with plain names. Class-name schemes stay upper-case and field-name schemes lower-case (with one scheme for both a field and its inner class share a name by configuration); safe prefixes are letters. Regions of the 11 recorded findings (known_findings.json) are excluded by construction: `type` and letter-less names, empty / __class__ JSON keys, <Name>Type named types, XML samples with mixed content, case-colliding names or one local name in two namespaces, multi-sample / multi-namespace sets under non-cluster styles."),
  "C02": dict(cat="exploration", ref="§C02, §1.1",
     tech="property-based testing (Hypothesis) over generated XML Schemas: a SchemaSpec generator renders the XSD and builds instance documents valid by construction; oracles = libxml2 XSD validation of schema, inputs and (in the order-preserving fragment) outputs, a typed default-augmented infoset comparison of serialize(parse(doc)) with doc, and a metamorphic comparison between two generator configurations that differ only in output-only options",
-    text="Generated search: per case one schema (namespaces and forms, named/anonymous complex types, nested sequence/choice/all particles with occurrence ranges, simple types by restriction/list/union/enumeration, attributes with use/default/fixed, wildcards, extension with xsi:type and abstract bases, nillable, mixed, simple content, recursion), 1-3 documents, two generator configurations. Generation must succeed, the package import, every document parse under the strictest settings, the typed unordered infoset survive the round trip, the ordered infoset and schema validity survive it in the order-preserving fragment, and both configurations agree. Searched, not proved.",
-    note="Code generation runs through stand-ins for click/jinja2/toposort and without ruff (self-tested against the 28 committed fixture outputs, AST-equal). Element refs, substitution groups, named groups/attribute groups and import/include are not generated; wrapper_fields stays off and regions of recorded findings (known_findings.json, 17 entries) are excluded by construction. 'Circular Dependencies' / 'strongly connected types' CodegenErrors are accepted as the documented refusal for non-cluster structure styles."),
+    text="Generated search: per case one schema (namespaces and forms, named/anonymous complex types, nested sequence/choice/all particles with occurrence ranges, element refs, substitution groups, named groups, attribute groups, simple types by restriction/list/union/enumeration, attributes with use/default/fixed, wildcards, extension with xsi:type and abstract bases, nillable, simple content, recursion), 1-3 documents, two generator configurations. Generation must succeed, the package import, every document parse under the strictest settings, the typed unordered infoset survive the round trip, the ordered infoset and schema validity survive it in the order-preserving fragment, and both configurations agree. Searched, not proved.",
+    note="Code generation runs through stand-ins for click/jinja2/toposort and without ruff (self-tested against the 28 committed fixture outputs, AST-equal). Global element refs, substitution groups, named groups and attribute groups are generated; import/include and mixed content are not (mixed: four recorded findings), wrapper_fields stays off and the regions of the recorded findings (known_findings.json, 19 entries) are excluded by construction. 'Circular Dependencies' / 'strongly connected types' CodegenErrors are accepted as the documented refusal for non-cluster structure styles."),
  "C19": dict(cat="exploration", ref="§C19",
     tech="schedule exploration with a harness-owned cooperative scheduler (yield points = traced lines touching shared state, installed with threading.settrace): exhaustive single-preemption enumeration for fixed program pairs + property-based (Hypothesis) generation of thread programs and multi-preemption schedules + a free-running stress run; oracle = differential against the sequential outcome on fresh instances",
     text="Threads run generated programs over one shared XmlContext and shared parsers/serializers; the scheduler owns every interleaving decision at line granularity inside the anchored code. Every single preemption of 16 two-thread program pairs is explored, plus generated schedules with up to 4 preemptions for 2-4 threads; each operation's outcome must equal its sequential outcome. Exhaustive for single preemptions of the listed pairs at the chosen yield points, searched elsewhere.",
